@@ -194,7 +194,7 @@ Proof.
   - rewrite index_key_small by exact X. unfold index_of_key. replace (i <? 128) with true by lia.
     unfold safe_uint. destruct (i =? 0) eqn:E.
     + apply N.eqb_eq in E. subst. reflexivity.
-    + replace (128 <=? i) with false by lia. cbn. f_equal. lia.
+    + replace (128 <=? i) with false by lia. cbn. f_equal; lia.
   - rewrite index_key_big by assumption. pose proof (klen_le9 i Y) as L9.
     assert (L2 : 2 <= klen i) by (pose proof (klen_one i); unfold klen in *; lia).
     unfold index_of_key. replace (128 + klen i <? 128) with false by lia.
@@ -335,12 +335,12 @@ Proof.
       exfalso. apply (lex_lt_irrefl a). eapply lex_lt_trans.
       - apply F1. apply in_map_iff. exists (b, vb). auto.
       - apply F2. apply in_map_iff. exists (a, va). auto. }
-    inversion E; subst b vb. f_equal. apply IH; auto.
+    injection E as Ea Ev. subst b vb. f_equal. apply IH; auto.
     intros k v. split; intros Hx.
     + destruct (proj1 (HI k v) (or_intror Hx)) as [E'|Hx']; [|exact Hx'].
-      inversion E'; subst. exfalso. apply (lex_lt_irrefl a). apply F1. apply in_map_iff. exists (a, v). auto.
+      injection E' as <- <-. exfalso. apply (lex_lt_irrefl a). apply F1. apply in_map_iff. exists (a, va). auto.
     + destruct (proj2 (HI k v) (or_intror Hx)) as [E'|Hx']; [|exact Hx'].
-      inversion E'; subst. exfalso. apply (lex_lt_irrefl a). apply F2. apply in_map_iff. exists (a, v). auto.
+      injection E' as <- <-. exfalso. apply (lex_lt_irrefl a). apply F2. apply in_map_iff. exists (a, va). auto.
 Qed.
 
 Theorem to_list_from_slice xs :
